@@ -31,11 +31,27 @@ def run(chk):
                 extra.append(filelevel.Case(z, 2, codec, ops + [("c",)], "many-row-groups"))
     filelevel.run_cases(pair, extra, want_parse=False)
     cases += extra
+    # one page of more than 2 MiB (a string value of 2.3 MB, hardly compressible): sizes whose varint prefixes need four
+    # bytes, reads that span hundreds of source buffers. The model is not run on it (the oracle needs no model).
+    z = zs.get("three")
+    huge = []
+    if z is not None:
+        import random as _r
+        rr = _r.Random(5)
+        blob = bytes(rr.getrandbits(8) for _ in range(2300000))
+        recs = [("struct", [("leaf", zoolib.le(1, 8)), ("some", ("leaf", blob)), ("list", [("leaf", zoolib.le(3, 4))])]),
+                ("struct", [("leaf", zoolib.le(2, 8)), ("nil",), ("list", [])])]
+        for codec in (1, 0):
+            huge.append(filelevel.Case(z, 10, codec, [("a", r) for r in recs] + [("w",), ("c",)], "huge-page"))
+        filelevel.run_cases(pair, huge, want_parse=False, want_model_write=False, want_read=True)
+        for c in huge:
+            c.model_read = filelevel.strip_calls(c.impl_read)      # no model run for these
+    cases += huge
     scheds = ["frag=%d" % n for n in list(range(1, 18))] + ["frag=1 eof", "frag=3 eof", "frag=64 eof", "eof"]
     scheds += ["rand=%d" % (chk.seed * 100 + i) for i in range(12 if thorough else 5)] + ["rand=%d eof" % (chk.seed * 100 + 50 + i) for i in range(4 if thorough else 2)]
     ops, meta = [], []
     for c in cases:
-        for s in scheds:
+        for s in (scheds if c.tag != "huge-page" else ["frag=1", "frag=3", "frag=4096", "rand=7", "frag=2 eof"]):
             ops.append("zoo-read %s %s %s" % (c.zoo.name, c.impl_file, s)); meta.append((c, s))
     res = common.chunked_parallel(pair.impl, ops, workers=8, chunk=100)
     tie_breaks, prop_fail = [], []
@@ -57,7 +73,7 @@ def run(chk):
         "obligations": pr["obligations"], "discharged": pr["discharged"], "axioms": pr["axioms"],
         "checker_cmd": "cd lean && lake build %s" % MODULE, "trusted_base": TRUSTED_BASE, "forbidden_constructs": pr["forbidden_constructs"],
         "evaluations": len(ops), "distinct_nontrivial": len(nontrivial),
-        "rule": "valid files of 5 structs x 3 codecs x page sizes, each read through a fragmenting io.ReadSeeker: fixed chunk sizes 1..17, seeded random short reads, data returned together with io.EOF; non-trivial = distinct (file, schedule) whose result equals the unfragmented expected records",
+        "rule": "valid files of 8 structs x 3 codecs x page sizes, each read through a fragmenting io.ReadSeeker: fixed chunk sizes 1..17, seeded random short reads, data returned together with io.EOF; non-trivial = distinct (file, schedule) whose result equals the unfragmented expected records",
         "samples": [ops[0][:200], ops[len(ops) // 2][:200]],
         "input_distribution": kinds,
         "tie": "reader model (source reads are full reads) = generated reader on unfragmented input; every schedule must give the same result",
